@@ -375,6 +375,16 @@ def _build_file(path, repo, cfgs, b, depth):
                     else:
                         b.origin.append(('contract', rel, i + 2 + t[1]))
                 info['disturbed'] = disturbed
+                # functions that exist in the current source of this section but not in the overlay's copy: new helpers
+                # (they have no contract, so a caller's failed obligation says nothing about the caller)
+                fn_names = lambda ls: set(re.findall(r'\bfn\s+([A-Za-z_]\w*)', '\n'.join(l for l in ls if not is_ghost(l))))
+                info['new_fns'] = sorted(fn_names(src) - fn_names(section))
+                b.new_fns = sorted(set(getattr(b, 'new_fns', [])) | set(info['new_fns']))
+                # callees named in the current source of this section but not in the overlay's copy (a call that was not
+                # there when the proof was written: its contract - if it has one - was never part of this proof)
+                callee_names = lambda ls: set(re.findall(r'(?<![\w!])([A-Za-z_]\w*)\s*(?:::<[^>()]*>)?\(', '\n'.join(re.sub(r'//.*$', '', l) for l in ls if not is_ghost(l))))
+                info['new_callees'] = sorted(callee_names(src) - callee_names(section) - set(['if', 'while', 'match', 'for', 'return', 'Some', 'Ok', 'Err', 'None', 'loop', 'in', 'as', 'fn']))
+                b.new_fns = sorted(set(b.new_fns) | set(info['new_callees']))
                 info['structural'] = getattr(merge, 'last_structural', 0)
                 info['drift'] = drift
                 b.dropped += notes
